@@ -170,17 +170,51 @@ def run(ctx):
 
     from sa.inline import expand as _expand
 
-    def canon(f):
+    def canon(f, skip=()):
         if f is None:
             return None
         g = _copy.copy(f)
-        g.node = _expand(prog, f)
+        g.node = _expand(prog, f, skip_names=skip)
         return g
 
-    merge, split = canon(merge), canon(split)
+    from sa import inline as _inl
+    from sa.types import Types as _Types
+
+    _inl.use_types(_Types(prog, M))   # `tc_range.apply_merge_marks()` resolves through the receiver's type
+    try:
+        # the region iterators are the vocabulary of R14.3: they stay calls
+        _iters = tuple(n_ for n_ in rng.methods if n_.startswith("iter_"))
+        merge, split = canon(merge, _iters), canon(split, _iters)
+    finally:
+        _inl.use_types(None)
     for _name in list(rng.methods):
         if _name.startswith("iter_") or _name in ("contains_merged_cell", "move_content_to_origin"):
-            rng.methods[_name] = canon(rng.methods[_name])
+            rng.methods[_name] = canon(rng.methods[_name], () if _name.startswith("iter_") else _iters)
+
+    from sa import records as R_
+    _ext_f = rng.methods.get("_extents")
+    _ext_rec = R_.producer_record(prog, _ext_f) if _ext_f is not None else None   # the extents as a record class, if they are one
+
+    def returned(f, local_only=False):
+        """the returned expressions of f's canonical form with single-assignment locals substituted ([] when not a single shape);
+        a record of extents reads as the (left, top, width, height) tuple it stands for"""
+        from sa import paths as P_
+
+        fx = _expand(prog, f, local_only=local_only)
+        val = P_.value_aliases(fx)
+        val.pop("_", None)
+        from sa.types import walk_own as _walk_own
+
+        out = []
+        for n in _walk_own(fx):
+            if isinstance(n, ast.Return) and n.value is not None:
+                e = ast.parse(P_.full(n.value, val, depth=8), mode="eval").body
+                if _ext_rec is not None:
+                    e = R_.TupleView(prog, _ext_rec[0], _ext_rec[1], lambda b: dotted(b) == "self._extents").visit(e)
+                    e = R_.ctor_to_tuple(prog, f.module, e)
+                    ast.fix_missing_locations(e)
+                out.append(e)
+        return out
 
     # -- R14.1 -------------------------------------------------------------------------------------------
     ctx.rule("R14.1", "refusal tests raise ValueError and dominate every mutating statement of merge / split")
@@ -361,13 +395,9 @@ def run(ctx):
     dims = rng.methods.get("dimensions")
     dim_ok = False
     if dims is not None:
-        unpack = [n for n in ast.walk(dims.node) if isinstance(n, ast.Assign) and isinstance(n.targets[0], ast.Tuple)
-                  and dotted(n.value) == "self._extents"]
-        ret = [n.value for n in ast.walk(dims.node) if isinstance(n, ast.Return)]
-        if unpack and ret and isinstance(ret[0], ast.Tuple):
-            names = [getattr(e, "id", None) for e in unpack[0].targets[0].elts]
-            if len(names) == 4:
-                dim_ok = [getattr(e, "id", None) for e in ret[0].elts] == [names[3], names[2]]
+        rv_ = returned(dims, local_only=True)
+        if len(rv_) == 1 and isinstance(rv_[0], ast.Tuple) and len(rv_[0].elts) == 2:
+            dim_ok = [ast.unparse(e) for e in rv_[0].elts] == ["self._extents[3]", "self._extents[2]"]
     munpack = [n for n in ast.walk(merge.node) if isinstance(n, ast.Assign) and isinstance(n.targets[0], ast.Tuple)
                and (dotted(n.value) or "").endswith(".dimensions")]
     span_ok = False
@@ -485,16 +515,6 @@ def run(ctx):
                       "reading order", file=rng.file, line=mv.line if mv else rng.line)
     # extents: min / abs diff + 1; bottom = top + height; right = left + width
     from sa import paths as P_
-
-    def returned(f, local_only=False):
-        """the returned expressions of f's canonical form with single-assignment locals substituted ([] when not a single shape)"""
-        fx = _expand(prog, f, local_only=local_only)
-        val = P_.value_aliases(fx)
-        val.pop("_", None)
-        from sa.types import walk_own as _walk_own
-
-        return [ast.parse(P_.full(n.value, val, depth=8), mode="eval").body for n in _walk_own(fx)
-                if isinstance(n, ast.Return) and n.value is not None]
 
     ext = rng.methods.get("_extents")
     if ext is None:
